@@ -24,7 +24,7 @@ def files():
     G.add_message(fd, "Resp", [G.F("x", 1, G.T.TYPE_STRING)])
     svc = G.add_service(fd, "Lab")
     G.add_method(svc, "Update", ".acme.lab.v1.Req", ".acme.lab.v1.Resp", http=("post", "/v1/{parent=p/*}:u"), body="*",
-                 signatures=["parent,count,force,spec", "parent,tags,labels,type,spec.size"])
+                 signatures=["parent,count,force,spec", "parent,tags,labels,type,spec.size", "parent,spec.class"])
     G.add_method(svc, "Dep", ".acme.dep.v1.DepReq", ".acme.lab.v1.Resp", http=("post", "/v1/{name=p/*}:d"), body="*", signatures=["name,tags"])
     G.add_method(svc, "Perm", ".google.iam.v1.TestIamPermissionsRequest", ".acme.lab.v1.Resp", http=("post", "/v1/{resource=p/*}:t"), body="*",
                  signatures=["resource,permissions"])
@@ -126,6 +126,8 @@ def scenarios():
         (dict(parent="", spec=None), lambda R, L: R(parent="")),
         (dict(parent="p/1", tags=["a", "b"], labels={"k": "v"}, type_="t", size=5), lambda R, L: R(parent="p/1", tags=["a", "b"], labels={"k": "v"}, type_="t", spec=L.Spec(size=5))),
         (dict(tags=[], labels={}), lambda R, L: R()),
+        # a dotted signature entry whose leaf is a reserved word: the parameter (and the attribute assigned) is `class_`
+        (dict(parent="p/2", class_="c"), lambda R, L: R(parent="p/2", spec=L.Spec(class_="c"))),
         ({}, lambda R, L: R()),
     ]
     pb2 = [(dict(resource="p/1", permissions=["x", "y"]), lambda R, L: R(resource="p/1", permissions=["x", "y"])),
